@@ -21,6 +21,7 @@ META = {
 META["explanation"] += " R08.4 no value owning the broadcast Sender (the ObservableVector, the Sender) is handed to mem::forget / ManuallyDrop::new / Box::leak / into_raw: the channel is closed by the Sender's destructor."
 META["explanation"] += ' none-sites: a per-arm result local (`let item = match .. { Closed => None, .. }`) is judged like a direct return; only a `let mut x = None` whose initialisation dominates another write is an accumulator.'
 META["explanation"] += ' Shared in im_core: R06.7 (a Pending built after re-arming the receive future without polling it loses the wake-up and the end of the stream).'
+META["explanation"] += ' Shared with C06: R06.1 (the contents carried by every message). R08.2 also sees the trait-method form of Sender::clone (what #[derive(Clone)] expands to).'
 
 RECV = r"broadcast::Receiver::<.*>::(try_recv|recv)$|ReusableBoxRecvFuture::<.*>::poll$|ReusableBoxFuture::<.*>::poll$"
 
@@ -36,6 +37,10 @@ def stream_fns(F):
 
 def run(ctx):
     F = ctx.facts
+    # shared with C06/R06.1: what a lagging subscriber is reset to is the contents carried by the message it lagged onto (vector
+    # helper, direct mutators, commit) - "the replica equals the final contents, lagged or not" rests on it
+    from . import c06
+    c06.r06_1(ctx)
     streams = stream_fns(F)
     lag = find_lag_handler(F)
     if len(streams) < 2:
@@ -47,8 +52,6 @@ def run(ctx):
     r08_2(ctx)
     r08_3(ctx, streams, lag)
     r08_4(ctx)
-    from .c06 import commit_state
-    commit_state(ctx)  # shared with C06/R06.1: the snapshot a lagging subscriber is reset to
 
     from . import groups
     groups.im_core(ctx)
@@ -99,7 +102,13 @@ def r08_2(ctx):
         b = f.built
         if not b:
             continue
-        for blk, t in b.calls(r"broadcast::Sender::<.*> as std::clone::Clone>::clone$|broadcast::Sender::<.*>::(clone|downgrade)$|broadcast::WeakSender::<.*>::upgrade$"):
+        SENDER_DUP = r"broadcast::Sender(::)?<.*> as std::clone::Clone>::clone$|broadcast::Sender(::)?<.*>::(clone|downgrade)$|broadcast::WeakSender(::)?<.*>::upgrade$"
+        dup_sites = {blk: t for blk, t in b.calls(SENDER_DUP)}
+        for blk, t in b.calls(r"Clone>?::clone$"):
+            # trait-method form (`Clone::clone(&self.sender)`, also what `#[derive(Clone)]` expands to): judged by the resolved impl
+            if re.search(SENDER_DUP, str(t.get("resolved") or "")) or re.search(SENDER_DUP, str((t.get("extra") or {}).get("full") or "")):
+                dup_sites.setdefault(blk, t)
+        for blk, t in sorted(dup_sites.items()):
             n += 1
             bad = True
             ctx.violated("R08.2", f, "sender-cloned", b.line_at((blk, 10 ** 6)),
